@@ -216,6 +216,21 @@ func (s *srsCtx) verdict(op, cls string, err error, want bool, desc func() strin
 
 var sampled sync.Map
 
+// stats collects per-instance figures that end up as one evidence entry each.
+var (
+	statMu sync.Mutex
+	stats  = map[string]map[string]float64{}
+)
+
+func noteStat(group, key string, v float64) {
+	statMu.Lock()
+	if stats[group] == nil {
+		stats[group] = map[string]float64{}
+	}
+	stats[group][key] += v
+	statMu.Unlock()
+}
+
 // verifyPts calls Verify on explicit points whose discrete logarithms are (cS, h).
 func (s *srsCtx) verifyPts(vk any, cls string, C, H kzgs.Pt, cS, h, v, z *big.Int) {
 	e := s.e
@@ -277,7 +292,7 @@ func runCurve(c *mon.Ctx, in *kzgs.Inst) {
 			}()
 			t0 := time.Now()
 			s.fn()
-			c.Extra("wall_s."+in.Name+"."+s.name, float64(int(time.Since(t0).Seconds()*10))/10) // informative only
+			noteStat("section_wall_s", in.Name+"/"+s.name, float64(int(time.Since(t0).Seconds()*10))/10) // informative only
 		}()
 	}
 	wg.Wait()
@@ -310,5 +325,10 @@ func main() {
 	}
 	wg.Wait()
 	pprof.StopCPUProfile()
+	statMu.Lock()
+	for k, v := range stats {
+		c.Extra(k, v)
+	}
+	statMu.Unlock()
 	c.Finish()
 }
